@@ -97,3 +97,34 @@ Theorem C09_scf_of_the_source_is_sigma2_over_total : forall (F : Type) (K : Ops 
    scf_src K n p1 p2 X Y ui vi (cp_tsc out) = fdiv K (fmul K (vget K s i) (vget K s i)) (frob2 K p1 p2 (cross_cov K n p1 p2 X Y))).
 Proof. exact (@C09_scf.scf_of_fitted_mode). Qed.
 Print Assumptions C09_scf_of_the_source_is_sigma2_over_total.
+
+(* the score sets of a cross-set model stay its own after a rotator was fitted on it: nothing in the package writes into another object's arrays in place (every augmented assignment of the package, regenerated from the source by T7inplace, is one of the 14 known sites acting on fresh local
+   values of the numerical kernels) *)
+From XV Require Gen.T7inplace Proofs.C14_tie.
+Theorem C09_no_inplace_arithmetic_on_stored_arrays : List.length T7inplace.inplace_sites = 14%nat /\
+  forallb C14_tie.not_in_fit_algorithm T7inplace.inplace_sites = true.
+Proof. exact (conj (f_equal (@List.length _) C14_tie.inplace_sites_known) (f_equal (forallb _) C14_tie.inplace_sites_known)). Qed.
+Print Assumptions C09_no_inplace_arithmetic_on_stored_arrays.
+
+(* the residual formula of squared_covariance_fraction() stands in the source as Model/Cpcca.v states it (matched statement by statement by T5cpcca),
+   with the same N-1 divisor as the cross-covariance itself *)
+Theorem C09_scf_formula_matches_source : scf_residual_formula_is_model = true /\ scf_resid_ddof = cpcca_cov_ddof /\ fve_residual_formula_is_model = true.
+Proof. exact (conj eq_refl (conj eq_refl eq_refl)). Qed.
+Print Assumptions C09_scf_formula_matches_source.
+
+(* the variance a field's own mode explains, as fraction_variance_X_explained_by_X / _Y_explained_by_Y compute it for a centred field with identity
+   whitening (one minus the squared norm of the residual X - (X u) u^H over the squared norm of X), is ||X u||^2 / ||X||^2 for EVERY unit vector u:
+   a ratio of two sums of squares, the numerator the smaller one *)
+Theorem C09_fve_of_the_source_is_score_norm_over_total : forall (F : Type) (K : Ops F), FieldLaws K ->
+  forall (n p : nat) (X u : mat), wf K n p X -> wf K p 1 u -> mmul K 1 p 1 (mH K p 1 u) u = mI K 1 ->
+  frob2 K n p (mode_resid K n p X u) = fsub K (frob2 K n p X) (frob2 K n 1 (mode_scores K n p X u)) /\
+  (frob2 K n p X <> f0 K -> fve_src K n p X u = fdiv K (frob2 K n 1 (mode_scores K n p X u)) (frob2 K n p X)).
+Proof. exact (fun F K FL n p X u WX Wu Hu => conj (@C09_scf.resid_frob2 F K FL n p X u WX Wu Hu) (@C09_scf.fve_src_is_score_norm_over_total F K FL n p X u WX Wu Hu)). Qed.
+Print Assumptions C09_fve_of_the_source_is_score_norm_over_total.
+
+(* ... and over the reals that fraction lies in [0, 1] for every non-zero field and every unit component vector *)
+From XV Require Proofs.C09_fve_real.
+Theorem C09_fve_in_unit_interval : forall (n p : nat) (X u : list (list R)), wf OR n p X -> wf OR p 1 u ->
+  mmul OR 1 p 1 (mH OR p 1 u) u = mI OR 1 -> (0 < frob2 OR n p X)%R -> (0 <= fve_src OR n p X u <= 1)%R.
+Proof. exact C09_fve_real.fve_in_unit_interval. Qed.
+Print Assumptions C09_fve_in_unit_interval.
